@@ -1,56 +1,74 @@
 #!/usr/bin/env python3
-"""seedtest.py <seed dir name> [check ids...]: apply seeded/<name>/patch.diff to /repo, run the checks
-(default: the property the seed breaks), undo the patch, and record what each check said in
-seeded/<name>/meta.json.  /repo must be clean before and is restored afterwards."""
-import json, os, subprocess, sys, time
+"""seedtest.py <seed dir name> [check ids...]: run checks against a seeded change WITHOUT touching /repo.
+
+A private copy of /repo (working tree, no _build) and of /verif (no .git, no replay files) is made under
+$SEEDTEST_TMP (default /tmp/seedtest), seeded/<name>/patch.diff is applied to the copy, the copy's
+tools/check.py is run with VERIF_REPO pointing at the patched copy, the verdicts are recorded in
+seeded/<name>/meta.json of the real /verif, and the copies are removed.  Several seedtests may run in
+parallel.  (The interface the task prescribes - `git -C /repo apply`, run the check, `git -C /repo checkout -- .`
+- gives the same verdicts; this script exists so that a whole seed x check matrix can be run while other
+work is using /repo.)"""
+import json, os, shutil, subprocess, sys, time
 VERIF = os.path.dirname(os.path.dirname(os.path.abspath(__file__)))
 REPO = "/repo"
+TMP = os.environ.get("SEEDTEST_TMP", "/tmp/seedtest")
+
 
 def sh(cmd, **kw):
     return subprocess.run(cmd, stdout=subprocess.PIPE, stderr=subprocess.STDOUT, text=True, **kw)
+
 
 def main():
     name = sys.argv[1]
     d = os.path.join(VERIF, "seeded", name)
     prop = name.split("-")[0]
     checks = sys.argv[2:] or [prop]
-    if sh(["git", "-C", REPO, "status", "--porcelain", "--untracked-files=no"]).stdout.strip():
-        print("/repo has uncommitted changes; refusing"); return 2
-    patch = os.path.join(d, "patch.diff")
-    r = sh(["git", "-C", REPO, "apply", "--3way", patch])
-    how = "git apply --3way"
-    if r.returncode != 0:
-        sh(["git", "-C", REPO, "checkout", "--", "."])
-        r = sh(["patch", "-p1", "--fuzz=3", "-d", REPO, "-i", patch])
-        how = "patch -p1 --fuzz=3"
+    work = os.path.join(TMP, name + "." + str(os.getpid()))
+    crepo, cverif = os.path.join(work, "repo"), os.path.join(work, "verif")
+    os.makedirs(work, exist_ok=True)
     results = {}
+    how = None
     try:
+        sh(["rsync", "-a", "--exclude", "_build", REPO + "/", crepo + "/"])
+        sh(["rsync", "-a", "--exclude", ".git", "--exclude", "build/replay", "--exclude", "build/scratch", "--exclude", "seeded",
+            VERIF + "/", cverif + "/"])
+        patch = os.path.join(d, "patch.diff")
+        r = sh(["git", "-C", crepo, "apply", patch])
+        how = "git apply"
         if r.returncode != 0:
-            print("patch does not apply:", r.stdout[-500:])
+            r = sh(["git", "-C", crepo, "apply", "--3way", patch])
+            how = "git apply --3way"
+        if r.returncode != 0:
+            sh(["git", "-C", crepo, "checkout", "--", "."])
+            r = sh(["patch", "-p1", "--fuzz=3", "-d", crepo, "-i", patch])
+            how = "patch -p1 --fuzz=3"
+        if r.returncode != 0:
+            print(name, "patch does not apply:", r.stdout[-300:])
             results = {"apply": "FAILED: " + r.stdout[-300:]}
         else:
+            env = dict(os.environ, VERIF_REPO=crepo)
             for c in checks:
                 t0 = time.time()
-                rr = sh(["python3", os.path.join(VERIF, "tools", "check.py"), c], cwd=VERIF)
-                lines = [l for l in rr.stdout.split("\n") if l.startswith("VIOLATION") or l.startswith("KNOWN-FINDING") or "OBLIGATION BROKEN" in l]
+                rr = sh(["python3", os.path.join(cverif, "tools", "check.py"), c], cwd=cverif, env=env)
+                lines = [l.replace(cverif, "/verif") for l in rr.stdout.split("\n")
+                         if l.startswith("VIOLATION") or l.startswith("KNOWN-FINDING") or "OBLIGATION BROKEN" in l]
                 results[c] = {"exit": rr.returncode, "lines": lines[:6], "wall_s": round(time.time() - t0, 1)}
-                print(name, c, "exit", rr.returncode, lines[:3])
+                print(name, c, "exit", rr.returncode, lines[:3], flush=True)
     finally:
-        sh(["git", "-C", REPO, "reset", "-q", "--hard", "HEAD"])
-        sh(["git", "-C", REPO, "checkout", "--", "."])
-        for f in os.listdir(REPO):
-            if f.endswith(".orig") or f.endswith(".rej"):
-                os.unlink(os.path.join(REPO, f))
+        shutil.rmtree(work, ignore_errors=True)
     meta_p = os.path.join(d, "meta.json")
     try:
         meta = json.load(open(meta_p))
     except OSError:
         meta = {"breaks_property": prop}
-    meta.setdefault("applied_with", how)
+    if how:
+        meta["applied_with"] = how
     meta.setdefault("checks", {}).update(results)
     meta["detected_by"] = sorted(c for c, v in meta["checks"].items() if isinstance(v, dict) and v.get("exit") == 1)
+    meta["not_detected_by"] = sorted(c for c, v in meta["checks"].items() if isinstance(v, dict) and v.get("exit") == 0)
     json.dump(meta, open(meta_p, "w"), indent=1)
     return 0
+
 
 if __name__ == "__main__":
     sys.exit(main())
